@@ -405,3 +405,38 @@ Proof.
   rewrite Hchk. eexists. split; [reflexivity|]. split; [reflexivity|].
   pose proof (rel_node bs [cnt] [] nm None ents ents' HF2) as HR. rewrite !app_nil_r in HR. exact HR.
 Qed.
+
+(* ------------------------------------------------------------------ chains of calls: repeat_interleave on a rank-0 batch *)
+Lemma rel_trans a b c : forall t t1 t2, rel a b t t1 -> rel b c t1 t2 -> rel a c t t2.
+Proof.
+  induction t as [sh|bs nm ents IH] using tree_ind'; intros t1 t2 H1 H2.
+  - inversion H1 as [tl|]; subst. inversion H2 as [tl' Heq|]; subst. apply app_inv_head in Heq. subst. constructor.
+  - inversion H1 as [|tl nm0 nm1 e0 e1 HF1]; subst. inversion H2 as [|tl' nm2 nm3 e2 e3 HF2 Heq]; subst.
+    apply app_inv_head in Heq. subst tl'. constructor.
+    clear H1 H2. revert e3 HF2. induction HF1 as [|x y l l' [Hk Hr] _ IHF]; intros e3 HF2; inversion HF2 as [|y' z l2 l3 [Hk2 Hr2] HF2']; subst; constructor.
+    + split; [congruence|]. exact (Forall_inv IH _ _ Hr Hr2).
+    + apply IHF; [exact (Forall_inv_tail IH)|exact HF2'].
+Qed.
+
+(* tensordict's extension: a rank-0 batch is repeated as a batch of one element (torch on the unsqueezed proxy gives [r]) *)
+Theorem repeat_interleave_rank0 : forall t r d,
+  wf t -> is_node t -> top_shape t = [] -> 0 <= r -> (d = None \/ d = Some 0 \/ d = Some (-1)) ->
+  exists t', td_repeat_interleave t r d = Done t' /\ top_shape t' = [r] /\ rel [] [r] t t' /\ wf t'.
+Proof.
+  intros t r d Hw Hn Ht Hr Hd. destruct t as [sh|bs nm ents]; [contradiction|]. cbn [top_shape] in Ht. subst bs.
+  cbn [td_repeat_interleave].
+  destruct (shape_ops_act_on_batch_dims (Node [] nm ents) (OUnsqueeze 0) [1] Hw I eq_refl) as [t1 [H1 [R1 W1]]].
+  rewrite H1. cbn [bindo]. cbn [top_shape] in R1.
+  assert (Ht1 : top_shape t1 = [1]).
+  { destruct (rel_top _ _ _ _ R1) as [tl [E1 E2]]. cbn in E1. subst tl. exact E2. }
+  set (dd := match d with Some d0 => d0 | None => 0 end).
+  assert (Hts : torch_shape (ORepInt r dd) [1] = Ok [r]).
+  { cbn [torch_shape]. unfold t_repeat_interleave. destruct (r <? 0) eqn:E; [lia|].
+    replace [r] with [1 * r] by (f_equal; lia).
+    destruct Hd as [->|[->| ->]]; reflexivity. }
+  destruct (shape_ops_act_on_batch_dims t1 (ORepInt r dd) [r] W1 ltac:(rewrite Ht1; discriminate) ltac:(rewrite Ht1; exact Hts))
+    as [t2 [H2 [R2 W2]]].
+  rewrite H2. exists t2. rewrite Ht1 in R2. split; [reflexivity|]. split; [|split; [eapply rel_trans; eassumption|exact W2]].
+  destruct (rel_top _ _ _ _ R2) as [tl [E1 E2]]. rewrite Ht1 in E1. change [1] with ([1] ++ []) in E1 at 1.
+  apply app_inv_head in E1. subst tl. exact E2.
+Qed.
